@@ -642,6 +642,9 @@ def run_C10(ctx):
     # the schema text printer indents by depth: its OUTPUT is quadratic in the nesting depth (256 MB at 16 000), so the
     # schema forms stop at 20 000 -- slow is not a hang, and a deadline cannot tell them apart
     dcs = [dict(op="totaldepth", form=f, k=(min(k, 20000) if f.startswith("schema") else k)) for f in forms for k in depths]
+    # mixed known / unknown keys, nested: 60 and 600 levels (a decoder that decodes a subtree twice per level needs
+    # 2^depth steps: 40 levels are already out of reach)
+    dcs += [dict(op="totaldepth", form=f, k=k) for f in ("jsonsetx", "jsonnotx", "jsonrecx") for k in (60, 600)]
     if not q:
         # 10^6: beyond what the recursive-descent parser, the folder and the evaluator survive (recorded known finding)
         dcs += [dict(op="totaldepth", form=f, k=1000000) for f in ("parens", "not", "jsonarray")]
